@@ -1,6 +1,7 @@
 package props
 
 import (
+	"go/constant"
 	"fmt"
 	"go/ast"
 	"go/token"
@@ -108,6 +109,7 @@ func runC17(p *core.Program, r *core.Report) {
 	r.Rule("C17.append", "log files are opened append/create/write-only, never truncated, named <logID>-<oname>-<date>.log under <home>/logs", 2)
 	r.Rule("C17.single-sink", "all output goes through the one log.Logger; the file handle is never written directly", 1)
 	r.Rule("C17.levels", "each level method gates on its own level constant with '>' before formatting", 8)
+	r.Rule("C17.level-names", "logger.LogLevel maps error/warn/info/debug (any case) to their own level constants and anything else to the default WARN level", 7)
 	r.Rule("C17.ratelimit", "checkOk suppresses iff now < last + sec*1000 and records the time only when not suppressing; level methods consult it after the gate with cacheInterval", 8)
 	r.Rule("C17.rotate", "process() reopens when date unit / rotation flag / handle changed; openFile is the only opener", 2)
 
@@ -115,6 +117,7 @@ func runC17(p *core.Program, r *core.Report) {
 	c17Retention(p, r)
 	c17Append(p, r)
 	c17Levels(p, r)
+	c17LevelParse(p, r)
 	c17Rotate(p, r)
 }
 
@@ -932,3 +935,45 @@ func nodeStringFull(n ast.Node) string {
 	return sb.String()
 }
 
+
+// c17LevelParse: the configured level is what LogLevel makes of the configured string. LogLevel is
+// interpreted (strEval) on the four level names in two spellings and on strings it does not know.
+func c17LevelParse(p *core.Program, r *core.Report) {
+	fi := p.Func("logger", "LogLevel")
+	if fi == nil || fi.Decl.Body == nil {
+		r.Undec("C17.level-names", "logger.LogLevel", "-", "function not found")
+		return
+	}
+	pos := p.Pos(fi.Decl.Pos())
+	lv := func(name string) constant.Value {
+		if c, ok := fi.Pkg.Types.Scope().Lookup(name).(*types.Const); ok {
+			return c.Val()
+		}
+		return nil
+	}
+	type tc struct {
+		in   string
+		want string
+	}
+	cases := []tc{{"error", "LOG_LEVEL_ERROR"}, {"warn", "LOG_LEVEL_WARN"}, {"info", "LOG_LEVEL_INFO"}, {"debug", "LOG_LEVEL_DEBUG"},
+		{"ERROR", "LOG_LEVEL_ERROR"}, {"Info", "LOG_LEVEL_INFO"}, {"", "LOG_LEVEL_WARN"}, {"warning", "LOG_LEVEL_WARN"}, {"trace", "LOG_LEVEL_WARN"}}
+	for _, c := range cases {
+		cn := fmt.Sprintf("logger.LogLevel(%q)", c.in)
+		want := lv(c.want)
+		if want == nil {
+			r.Undec("C17.level-names", cn, pos, "constant "+c.want+" not found")
+			continue
+		}
+		se := &strEval{p: p, info: fi.Pkg.TypesInfo}
+		got := se.call(fi, []constant.Value{constant.MakeString(c.in)}, 0)
+		if se.err != "" || got == nil {
+			r.Undec("C17.level-names", cn, pos, "LogLevel is outside the interpreted fragment: "+se.err)
+			continue
+		}
+		what := "a level name is mapped to another level: lines of the configured level are dropped or lower ones appear"
+		if strings.HasSuffix(c.want, "WARN") && c.in != "warn" {
+			what = "an unrecognised level string no longer falls back to the default WARN level (log_level defaults to \"warn\"): a typo in the setting changes which lines are written"
+		}
+		r.Check(constant.Compare(got, token.EQL, want), "C17.level-names", cn, pos, "= "+c.want, fmt.Sprintf("yields %s, expected %s (%s): %s", got, c.want, want, what))
+	}
+}
